@@ -2,7 +2,7 @@
 from __future__ import annotations
 
 from .harness import Explorer
-from .rules import part, wrappers, pent, sysz, mcsops, cnf, enum
+from .rules import part, wrappers, pent, sysz, mcsops, cnf, enum, cinf
 
 
 def _class_of(table, key):
@@ -201,6 +201,26 @@ def C15(rep, prog, tier):
     enum.loop(rep, ex)
 
 
+def C05(rep, prog, tier):
+    rep.explanation = ("C05: c-inference: roles of the compiled minima (which correction sets go where), the constraint relations "
+                       "as linear forms (η_i − mv_i + mf_i > 0, minima encoding, query constraint, answer polarity), query edge cases, the "
+                       "guard against an empty falsifying minimum, the early exit, index discipline of the η/mv/mf name families")
+    ex = Explorer(prog, rep)
+    table = wrappers.dispatch(rep, ex)
+    cls = _class_of(table, ("c-inference", None))
+    if cls:
+        cinf.minima_roles(rep, ex, cls)
+        cinf.query_encoding(rep, ex, cls)
+        cinf.minima_encoding(rep, ex)
+        cinf.encoding_relation(rep, ex, cls)
+        cinf.answer(rep, ex, cls)
+        cinf.key_discipline(rep, ex, cls)
+    wrappers.shortcut_guard(rep, ex)
+    wrappers.shortcut_dominance(rep, ex)
+    cnf.roles(rep, ex)
+    enum.loop(rep, ex)
+
+
 def C06(rep, prog, tier):
     rep.explanation = ("C06: tolerance-partition obligations PART.* on consistency/consistency_indices (scope of every "
                        "satisfiability test, split, balance, terminal decisions, advance, siblings); diagnostics flags; refusal")
@@ -212,4 +232,4 @@ def C06(rep, prog, tier):
     wrappers.shortcut_dominance(rep, ex)
 
 
-CHECKS = {"C01": C01, "C02": C02, "C03": C03, "C04": C04, "C06": C06, "C07": C07, "C09": C09, "C11": C11, "C14": C14, "C15": C15}
+CHECKS = {"C01": C01, "C02": C02, "C03": C03, "C04": C04, "C05": C05, "C06": C06, "C07": C07, "C09": C09, "C11": C11, "C14": C14, "C15": C15}
